@@ -2,7 +2,9 @@
    Statements only; proofs in Proofs/Citations*.v; the vocabulary of the statements (dedup_ci,
    threshold_hits, missing_of, dangling_of, parents_follow_children ...) is Spec/Citations.v. *)
 From Pybtex Require Import Base.Prelude Base.PyChar Base.PyStr Model.Citations Spec.Citations
-  Proofs.CitationsBase Proofs.Citations.
+  Proofs.CitationsBase Proofs.Citations Proofs.CitationsFiltered.
+
+Definition K (s : string) : key := s2l s.
 
 (* _expand_wildcard_citations: the explicitly cited keys in first-citation order, '*' standing for
    every database entry in database order, de-duplicated up to letter case (first spelling kept) *)
@@ -72,8 +74,50 @@ Theorem citation_spelling_wins : forall db cites k cr,
 Proof. exact citation_spelling_lemma. Qed.
 Print Assumptions citation_spelling_wins.
 
+(* F13 (known finding): reading filtered by the citations is NOT always the same as reading the
+   whole file and selecting -- a parent placed before its only cited child is skipped (it is not yet
+   wanted when the parser meets it), is then not added, and a 'bad cross-reference' is reported although
+   the target exists.  Witness: file [P; C -> P], \citation{C}, min_crossrefs 1. *)
+Theorem filtered_parent_first_refuted : exists db cites m,
+  map lower (fst (command_read_raw db cites m)) <> map lower (fst (select_unfiltered db cites m)).
+Proof. exact filtered_refuted. Qed.
+Print Assumptions filtered_parent_first_refuted.
+Example f13_example :
+  map lower (fst (command_read_raw f13_db [s2l "C"] 1)) <> map lower (fst (select_unfiltered f13_db [s2l "C"] 1)) /\
+  snd (command_read_raw f13_db [s2l "C"] 1) = [RBadXref (s2l "C") (s2l "P")] /\
+  snd (select_unfiltered f13_db [s2l "C"] 1) = [].
+Proof. exact f13_witness. Qed.
+
+(* ... and it IS the same (same entries, same order, up to the letter case of keys) for every database,
+   citation list and min_crossrefs that obey BibTeX's documented ordering rule: a cross-referenced entry
+   that is not itself cited comes after every cited entry referring to it.  No other hypothesis: repeated
+   keys, dangling / mixed-case / self / chained references, '*' anywhere, unknown keys are all covered. *)
+Theorem filtered_equals_unfiltered : forall db cites m, parents_follow_children db cites ->
+  map lower (fst (command_read_raw db cites m)) = map lower (fst (select_unfiltered db cites m)).
+Proof. exact filtered_unfiltered. Qed.
+Print Assumptions filtered_equals_unfiltered.
+(* the hypothesis is met by a non-trivial database (child before parent, threshold 2, mixed case) and is
+   exactly what the F13 witness violates *)
+Example pfc_example :
+  let db := [(K "c1", Some (K "P")); (K "C2", Some (K "p")); (K "p", None); (K "x", None)] in
+  (forall i c p j, nth_error db i = Some (c, Some p) -> first_index c db = Some i -> cited_by [K "C1"; K "c2"] c = true ->
+     first_index p db = Some j -> cited_by [K "C1"; K "c2"] p = true \/ i < j) /\
+  fst (command_read_raw db [K "C1"; K "c2"] 2) = [K "C1"; K "c2"; K "p"] /\
+  fst (select_unfiltered db [K "C1"; K "c2"] 2) = [K "C1"; K "c2"; K "p"].
+Proof.
+  cbv zeta. split; [|vm_compute; auto].
+  intros i c p j Hn. destruct i as [|[|[|[|i]]]]; cbn in Hn; try discriminate.
+  - injection Hn as <- <-. vm_compute. intros _ _ [= <-]. right. lia.
+  - injection Hn as <- <-. vm_compute. intros _ _ [= <-]. right. lia.
+  - destruct i; discriminate.
+Qed.
+Example f13_not_pfc : ~ parents_follow_children f13_db [s2l "C"].
+Proof.
+  intros H. specialize (H 1 (s2l "C") (s2l "P") 0 eq_refl eq_refl eq_refl eq_refl).
+  destruct H as [H|H]; [vm_compute in H; discriminate|lia].
+Qed.
+
 (* ---- non-vacuity / sanity: the doctests of the anchored functions and a threshold example *)
-Definition K (s : string) : key := s2l s.
 Definition db4 : edict := [(K "uno", None); (K "dos", None); (K "tres", None); (K "cuatro", None)].
 Example expand_example :
   expand db4 [K "dos"; K "*"] = [K "dos"; K "uno"; K "tres"; K "cuatro"] /\
